@@ -7,5 +7,8 @@ Open Scope Z_scope.
 Definition run_case (l : list Z) : list Z :=
   match l with
   | 1 :: args => run_sock args
+  | 2 :: args => run_crc args
+  | 3 :: args => run_validate args
+  | 4 :: args => run_stream args
   | _ => [-1]
   end.
